@@ -203,6 +203,104 @@ def r5_map_delegate(rep, facts):
     rep.check(R, 'Map.map|type', ty.startswith(exp), ty[:60], f'toml::Map stores `{ty}`, expected {exp}..> in this configuration')
 
 
+def _marks(x, out):
+    from .den import IterObj
+    if isinstance(x, tuple):
+        if len(x) == 2 and x[0] in ('elem', 'key') and isinstance(x[1], int):
+            out.append(x)
+        else:
+            for y in x:
+                _marks(y, out)
+    elif isinstance(x, dict):
+        for y in x.values():
+            _marks(y, out)
+    elif isinstance(x, list):
+        for y in x:
+            _marks(y, out)
+    elif isinstance(x, IterObj):
+        for y in x.rest():
+            _marks(y, out)
+    return out
+
+
+def r2c_iteration_tables(rep, facts, rid='C16/R2c'):
+    R = rep.rule(rid, 'iter / iter_mut / into_iter / len / is_empty of Table, InlineTable, Array and ArrayOfTables, evaluated on a storage of four slots of which the '
+                 'second is an Item::None placeholder (and on a storage of placeholders only): every real entry is yielded exactly once, in storage order, with its '
+                 'own key; placeholders are not yielded or counted; the shared and the mutable iterator agree', floor=16)
+    from .den import Interp, Evaluator, Unanalysable, EvalPanic, IterObj
+    NONE_ITEM = ('ctor', 'toml_edit::item::Item::None')
+    key = lambda i: ('struct', 'toml_edit::key::Key', {'key': ('key', i), 'repr': ('opaque',), 'leaf_decor': ('opaque',), 'dotted_decor': ('opaque',)})
+    val = lambda i: ('ctor', 'toml_edit::item::Item::Value', (('elem', i),))
+    tab = lambda i: ('ctor', 'toml_edit::item::Item::Table', (('elem', i),))
+    cases = [('toml_edit::table::Table', 'items', True, val), ('toml_edit::inline_table::InlineTable', 'items', True, val),
+             ('toml_edit::array::Array', 'values', False, val), ('toml_edit::array_of_tables::ArrayOfTables', 'values', False, tab)]
+    for ty, field, ismap, mk in cases:
+        if ty not in facts.adts:
+            continue
+        short = last_seg(ty)
+        for label, items, want_idx in (('mixed', [mk(0), NONE_ITEM, mk(2), mk(3)], [0, 2, 3]), ('placeholders', [NONE_ITEM, NONE_ITEM], [])):
+            store = tuple((key(i), it) for i, it in enumerate(items)) if ismap else tuple(items)
+            want = [([('key', i)] if ismap else []) + [('elem', i)] for i in want_idx]
+            meths = [(f'{ty}::iter', 'iter'), (f'{ty}::iter_mut', 'iter_mut')]
+            meths += [(d, 'into_iter' + ('(&)' if d.startswith("<&") else '')) for d in facts.bodies if d.endswith('::into_iter') and
+                      (d.startswith(f'<{ty} as ') or d.startswith(f"<&'s {ty} as ") or d.startswith(f"<&'a {ty} as "))]
+            for d, mname in meths:
+                if not facts.has_body(d):
+                    continue
+                b = facts.body(d)
+                try:
+                    r = Interp(Evaluator(facts)).apply_fn(b, [('struct', ty, {field: store})])
+                    xs = r.rest() if isinstance(r, IterObj) else (list(r[1]) if isinstance(r, tuple) and len(r) == 2 and r[0] == 'iter' else None)
+                    if xs is None:
+                        raise Unanalysable(f'does not evaluate to an iterator ({r!r:.60})')
+                    got = [_marks(x, []) for x in xs]
+                except EvalPanic as e:
+                    rep.bad(R, f'{short}::{mname}|{label}', f'`{d}` panics on a storage with placeholders: {e}', facts.loc(b))
+                    continue
+                except Unanalysable as e:
+                    rep.incomplete(R, f'{short}::{mname}|{label}', f'cannot evaluate `{d}`: {e}', facts.loc(b))
+                    continue
+                rep.check(R, f'{short}::{mname}|{label}', got == want, f'yields entries {want_idx}', f'`{d}` on slots [entry, placeholder, entry, entry] yields {got}, expected the entries '
+                          f'{want_idx} with their own keys, each once, in order' if label == 'mixed' else f'`{d}` on a storage of placeholders yields {got}, expected nothing', facts.loc(b))
+            # the counting observers agree with iteration (Array and ArrayOfTables count their Vec, which holds values / tables only: judged on iteration alone)
+            if ismap:
+                for d, wantv in ((f'{ty}::len', len(want_idx)), (f'{ty}::is_empty', not want_idx)):
+                    if not facts.has_body(d):
+                        continue
+                    b = facts.body(d)
+                    try:
+                        r = Interp(Evaluator(facts)).apply_fn(b, [('struct', ty, {field: store})])
+                    except (Unanalysable, EvalPanic) as e:
+                        rep.incomplete(R, f'{short}::{last_seg(d)}|{label}', f'cannot evaluate `{d}`: {e}', facts.loc(b))
+                        continue
+                    rep.check(R, f'{short}::{last_seg(d)}|{label}', r == wantv and type(r) is type(wantv), f'{r}', f'`{d}` is {r} on a storage whose real entries are {want_idx} '
+                              f'(placeholders left by mutable indexing must not count)', facts.loc(b))
+
+
+def r5b_iterator_wrappers(rep, facts):
+    R = rep.rule('C16/R5b', 'the iterator types of toml::Map (Iter, IterMut, IntoIter, Keys, Values) forward every method of Iterator / DoubleEndedIterator / '
+                 'ExactSizeIterator to the method of the same name of the wrapped iterator (iteration from the back really comes from the back)', floor=15)
+    traits = ('core::iter::traits::iterator::Iterator', 'core::iter::traits::double_ended::DoubleEndedIterator', 'core::iter::traits::exact_size::ExactSizeIterator')
+    for imp in facts.impls:
+        if imp.get('trait') not in traits or not (imp.get('self_ty') or '').startswith('toml::map::'):
+            continue
+        for it in imp['items']:
+            d = it['def']
+            if it.get('kind') != 'AssocFn' and not facts.has_body(d):
+                continue
+            if not facts.has_body(d):
+                continue
+            b = facts.body(d)
+            top = peel(b['body'])
+            while top.get('k') == 'block' and not top.get('stmts') and top.get('expr'):
+                top = peel(top['expr'])
+            fw = None
+            if top.get('k') == 'mcall' and peel(top['recv']).get('k') == 'field' and peel(peel(top['recv'])['base']).get('res') == 'Local':
+                fw = top.get('name')
+            rep.check(R, f'{last_seg(imp["self_ty"].split("<")[0])}::{it["name"]}', fw == it['name'], f'-> self.{peel(top["recv"]).get("name") if fw else "?"}.{fw}()',
+                      f'`{d}` forwards to `{fw}` of the wrapped iterator instead of `{it["name"]}`' if fw else f'`{d}` is not a plain forward to the wrapped iterator', facts.loc(b))
+
+
 EXT = 'core::iter::traits::collect::Extend'
 FROMIT = 'core::iter::traits::collect::FromIterator'
 
@@ -241,6 +339,7 @@ def rules(rep, facts):
         R1 = rep.rule('C16/R1', 'no order-breaking storage operation (swap_remove*, IndexMap::remove, sort_unstable*, swap_indices) in toml_edit / toml', floor=2)
         order_ops(rep, R1, facts, floor_shift=6)
         r2_placeholders(rep, facts)
+        r2c_iteration_tables(rep, facts)
         r4_key_identity(rep, facts)
         r6_sorting(rep, facts)
         r7_bulk_insert(rep, facts)
@@ -249,6 +348,7 @@ def rules(rep, facts):
         rep.relabel('C08/R2', 'C16/R8', 'an existing key keeps its position on insertion (ordered-map law): ')
     if 'toml' in facts.crates:
         r5_map_delegate(rep, facts)
+        r5b_iterator_wrappers(rep, facts)
 
 
 def _crossref(rep):
